@@ -143,6 +143,12 @@ class CliProto(_rendezvous.WSClient):
         self.conn = conn
 
     def sendMessage(self, payload, isBinary=False):
+        if getattr(self.conn, "ws_closing", False) and self.conn.alive:
+            # autobahn: WebSocketProtocol.sendMessage() in STATE_CLOSING (the server's Close frame was answered,
+            # the TCP connection is not down yet) raises Disconnected
+            from autobahn.exception import Disconnected
+            self.conn.world.closing_sends = getattr(self.conn.world, "closing_sends", 0) + 1
+            raise Disconnected("Attempt to send on a closed protocol")
         if self.conn.alive and not self.conn.client_gone:
             self.conn.c2s.append(payload)
             self.conn.world.cmdlog.append((self.conn.svc.name, self.conn.n, json.loads(payload)))
@@ -675,6 +681,10 @@ class World:
                 # TCP is up, the WebSocket negotiation has not finished
                 ev.append(("mb.stopfin", c) if c.stopping else ("mb.open", c))
                 continue
+            if getattr(c, "ws_closing", False):
+                # the closing handshake is done, the server has not dropped the TCP connection yet
+                ev.append(("mb.stopfin", c) if c.stopping else ("mb.closefin", c))
+                continue
             if c.c2s:
                 ev.append(("mb.c2s", c))
             if c.stopping:
@@ -822,8 +832,19 @@ class World:
             if d:
                 d.callback(None)
         elif k == "mb.drop":
-            # arg "clean": the server (or a proxy) ends the WebSocket with a proper close frame (code 1000)
-            self._kill(e[1], clean=(arg == "clean"))
+            # arg "clean": the server (or a proxy) ends the WebSocket with a proper close frame (code 1000);
+            # arg "closing": the same in two steps - the client has received and answered the Close frame
+            # (autobahn STATE_CLOSING: nothing more is received, sendMessage() raises), the TCP connection goes
+            # down one scheduler event ("mb.closefin") later
+            c = e[1]
+            if arg == "closing" and not c.s2c and not c.in_rx:
+                c.ws_closing = True
+                del c.c2s[:]          # a server that has sent its Close frame ignores further data frames
+                self.closing_windows = getattr(self, "closing_windows", 0) + 1
+            else:
+                self._kill(c, clean=(arg in ("clean", "closing")))
+        elif k == "mb.closefin":
+            self._kill(e[1], clean=True)
         elif k == "net.connect":
             cn = e[1]
             self.net.pending.remove(cn)
@@ -911,7 +932,7 @@ class World:
                 return None
             return tape.choice([None, None, 1, 2, 5, 40, 1000, 3, None])
         if e[0] == "mb.drop" and getattr(self, "clean_drops", False) and not tape.exhausted():
-            return tape.choice([None, None, "clean"])
+            return tape.choice([None, None, "clean", "closing"] if getattr(self, "closing_drops", False) else [None, None, "clean"])
         return None
 
     # fair run to quiescence (stabilisation phase)
